@@ -2,17 +2,22 @@
 # tools/try_seed.sh <patch.diff> [check ids...]
 # Applies a seeded change to /repo, runs the given checks (default: all) in
 # the quick tier, prints one line per check, and undoes the change.
-# /repo must be clean before; it is clean afterwards.
+# /repo must be clean before; it is clean afterwards.  evidence/ and
+# replays/ are restored (runs against a changed tree are not evidence);
+# the replay files of the seeded run are kept in /dev/shm/verif-seed-replays.
 set -u
 PATCH=$1; shift
 CHECKS=${*:-C01 C02 C03 C04 C05 C06 C07 C08 C09 C10 C11 C12 C13 C14 C15 C16 C17 C18 C19 C20}
 cd /verif
 if [ -n "$(git -C /repo status --porcelain)" ]; then echo "/repo not clean"; exit 2; fi
 if ! git -C /repo apply "$PATCH"; then echo "patch does not apply"; exit 2; fi
-trap 'git -C /repo checkout -- . ; git -C /repo clean -fdq go bin 2>/dev/null' EXIT
+SAVE=$(mktemp -d /dev/shm/verif-seedsave.XXXX)
+cp -a evidence replays $SAVE/ 2>/dev/null
+trap 'git -C /repo checkout -- . ; git -C /repo clean -fdq go bin 2>/dev/null; rm -rf /verif/evidence /verif/replays; cp -a $SAVE/evidence $SAVE/replays /verif/ 2>/dev/null; rm -rf $SAVE' EXIT
 if ! ./build.sh > .build.log 2>&1; then echo "BUILD FAILED"; tail -5 .build.log; exit 3; fi
 for c in $CHECKS; do
   out=$(./.build/verif $c quick 2>&1); rc=$?
   sigs=$(echo "$out" | grep "unknown violations" | sed 's/.*signature=//' | head -4 | tr '\n' ';')
   echo "$c exit=$rc $sigs"
 done
+rm -rf /dev/shm/verif-seed-replays; cp -a replays /dev/shm/verif-seed-replays 2>/dev/null
